@@ -9,7 +9,7 @@ BEFORE the call is rebuilt from the implementation's previous dump, `dom_step` i
 and the result class and the abstract state are compared with what the implementation reports after
 the call -- this is the statement `step_refines` of Properties/C13.v, checked on reachable states of
 the real code; a deviation does not derail the rest of the history."""
-import hashlib, json, os, random, time
+import hashlib, json, os, random, re, time
 from . import lib, domlib as D
 
 enc, dec = lib.enc, lib.dec
@@ -313,10 +313,10 @@ def analyse(cases, lines, tag, summary, c15=True):
             broken_before = {k for k, v in prev.r.items() if v != 'ok:eq'}
             for clause, detail in reparse_violation(rec):
                 k = int(detail.split(' ')[1].rstrip(':'))
-                feats = features15(rec, k)
+                feats = features15(rec, k, docs)
                 if k in broken_before:
                     # the document was already broken: report this call only if it broke it in a NEW way
-                    feats = feats - features15(prev, k)
+                    feats = feats - features15(prev, k, docs)
                     if not feats:
                         cnt('c15:already-broken'); continue
                 f = {'docs': docs, 'ops': [list(o) for o in ops[:i]], 'clause': clause, 'detail': detail, 'tag': tag, 'op': list(op), 'impl': res,
@@ -352,7 +352,43 @@ def classify13(f):
 
 PREDEF = ('amp', 'lt', 'gt', 'apos', 'quot')
 
-def features15(rec, k):
+def restricted_entities(doctext):
+    """{name: set of places ('content', 'attribute') where a reference to the entity is NOT allowed}, read from the
+    internal subset of the original document: unparsed entities and entities that refer to themselves nowhere;
+    external parsed entities and replacement text with '<' not in attribute values; replacement text that is no
+    `content` (a lone '<' or '&') not in content"""
+    ents = {}
+    for m in re.finditer(r'<!ENTITY\s+([^\s%]\S*)\s+(?:(SYSTEM|PUBLIC)\b([^>]*)|"([^"]*)"|\'([^\']*)\')', doctext):
+        name, ext, extrest, l1, l2 = m.groups()
+        if name in ents: continue
+        if ext:
+            ents[name] = {'content', 'attribute'} if 'NDATA' in (extrest or '') else {'attribute'}
+        else:
+            lit = l1 if l1 is not None else l2
+            ents[name] = {'lit': lit}
+    out = {}
+    lits = {n: v['lit'] for n, v in ents.items() if isinstance(v, dict)}
+    def reach(n, seen):
+        for r in re.findall(r'&([^#;&\s][^;&\s]*);', lits.get(n, '')):
+            if r in seen: return True
+            if r in lits and reach(r, seen | {r}): return True
+        return False
+    for n, v in ents.items():
+        if not isinstance(v, dict):
+            out[n] = v; continue
+        lit = v['lit']
+        bad = set()
+        if reach(n, {n}): bad |= {'content', 'attribute'}
+        expanded = re.sub(r'&#(?:x0*3[cC]|0*60);', '<', lit)
+        expanded = re.sub(r'&#(?:x0*26|0*38);', '&', expanded)
+        if '<' in expanded: bad.add('attribute')
+        if re.search(r'<(?![A-Za-z_:!?/])|<[^>]*$|&(?![#A-Za-z_:])|&[^;]*$', expanded): bad.add('content')
+        for r in re.findall(r'&([^#;&\s][^;&\s]*);', lit):          # what it refers to is restricted too
+            if r in ents and not isinstance(ents[r], dict): bad |= ents[r]
+        if bad: out[n] = bad
+    return out
+
+def features15(rec, k, docs=None):
     """what is known to make the serialisation of document k unparsable (evaluated on the dump)"""
     N = rec.nodes
     root = None
@@ -374,6 +410,14 @@ def features15(rec, k):
     has_dt = any(N[x].kind == 'dt' for x in kids)
     if not has_dt and any(N[h].kind == 'er' and dec(N[h].name) not in PREDEF for h in attached):
         feats.add('nodt-entityref')
+    if has_dt and docs and k < len(docs):
+        restr = restricted_entities(docs[k])
+        for h in attached:
+            if N[h].kind == 'er' and dec(N[h].name) in restr:
+                up = N[h].p if hasattr(N[h], 'p') else None
+                place = 'attribute' if (up in N and N[up].kind == 'at') else 'content'
+                if place in restr[dec(N[h].name)]:
+                    feats.add('entityref-illegal-here')
     kinds = [N[x].kind for x in kids]
     if 'dt' in kinds and 'el' in kinds and kinds.index('el') < kinds.index('dt'):
         feats.add('element-before-doctype')
@@ -413,6 +457,8 @@ def classify15(f):
             return ('C15-NOROOT', 'the document element was removed (DOM Level 1 allows it): a document without an element has no well-formed serialisation')
         if 'nodt-entityref' in feats:
             return ('C15-DOCTYPE-REMOVED', 'the document type was removed while references to the entities it declares remain in the tree')
+        if 'entityref-illegal-here' in feats:
+            return ('C15-ENTREF-UNCHECKED', 'an EntityReference node for a declared entity was attached where a reference to that entity is not allowed (unparsed or recursive entity; external entity or replacement text with "<" in an attribute value; replacement text that is no content): create_entity_reference and the insertions do not run the entity checks of the parser')
         if 'adjacent-text-cdend' in feats:
             return ('C15-ADJACENT-TEXT', 'two adjacent Text nodes, each storable, print as character data containing "]]>"')
         if 'text-with-cdend-in-content' in feats:
@@ -456,6 +502,9 @@ CORPUS = [
     (['<r>t</r>'], [('CP', 0, 'xml-stylesheet', "href='a.css'"), ('IB', 0, 3, 1)]),
     (['<r/>'], [('CP', 0, 'xmlx', 'd'), ('IB', 0, 2, 1), ('CC', 0, 'c'), ('IB', 0, 3, 2)]),
     (['<!--c--><r/>'], [('CP', 0, 'xml-model', ''), ('IB', 0, 3, 1), ('CP', 0, 'XML-x', 'v'), ('IB', 0, 4, 3)]),
+    # entity references created through the API and attached where the entity may not be referred to (finding C15-ENTREF-UNCHECKED)
+    (['<!DOCTYPE r [<!NOTATION n SYSTEM "x"><!ENTITY u SYSTEM "f" NDATA n><!ENTITY a "&a;"><!ENTITY b "<x">]><r/>'], [('CR', 0, 'u'), ('AC', 2, 3), ('CR', 0, 'a'), ('AC', 2, 4), ('CR', 0, 'b'), ('AC', 2, 5)]),
+    (['<!DOCTYPE r [<!ENTITY x SYSTEM "g"><!ENTITY l "&#60;">]><r k="v"/>'], [('CR', 0, 'x'), ('CR', 0, 'l'), ('AC', 3, 7), ('AC', 3, 8)]),
     # PI data that begins with white space, a comment truncated in front of a hyphen
     (['<r/>'], [('CP', 0, 'php', '  echo 1;'), ('AC', 1, 2), ('SD', 2, '\n\tkey="v"')]),
     (['<r><!--chapter 1 - draft--><!--a-b--></r>'], [('DD', 2, 11, 6), ('DD', 3, 2, 100), ('DD', 3, 1, 1)]),
